@@ -75,9 +75,12 @@ fn parse_file(path: &Path) -> Option<Parsed> {
         if line[0] != b'{' || *line.last().unwrap() != b'}' {
             p.whole = false;
         }
-        if let Some(t) = find_num(line, b"\"time_ns\":") {
+        // a file's rank is the time of its last line: the harness's own stamp ("wall") where the line has one -- an event
+        // may carry any time of its own --, else the line's time (the writer's start lines)
+        if let Some(t) = find_num(line, b"\"wall\":").or_else(|| find_num(line, b"\"time_ns\":")) {
             p.last_time = t;
-        } else {
+        }
+        if find_num(line, b"\"time_ns\":").is_none() {
             p.whole = false;
         }
         if let Some(n) = find_num(line, b"\"seq\":") {
@@ -162,8 +165,36 @@ impl Dir {
     }
 }
 
+/// An event whose own time is not the time at which it is written: an `Error` is logged with the time it was created,
+/// `log(time, ..)` takes any time.  The writer's rotation and retention go by the clock, never by what an event says.
+/// (A `LogEvent` with a chosen time can only be made by the logging path: a capture logger is installed once.)
+fn dated_event(time: SystemTime, tags: Vec<servlin::log::internal::Tag>) -> Option<LogEvent> {
+    use std::sync::{Mutex, OnceLock};
+    static CAP: OnceLock<Option<Mutex<std::sync::mpsc::Receiver<LogEvent>>>> = OnceLock::new();
+    let cap = CAP.get_or_init(|| {
+        let (s, r) = std::sync::mpsc::sync_channel::<LogEvent>(4);
+        match servlin::log::set_global_logger(s) {
+            Ok(guard) => {
+                std::mem::forget(guard);
+                Some(Mutex::new(r))
+            }
+            Err(_) => None,
+        }
+    });
+    let rx = cap.as_ref()?.lock().unwrap();
+    servlin::log::internal::log(time, Level::Info, tags).ok()?;
+    rx.recv_timeout(Duration::from_secs(2)).ok()
+}
+
 fn make_event(seq: u64, pad: usize) -> (LogEvent, u64) {
-    let ev = LogEvent::new(Level::Info, vec![tag("pad", "x".repeat(pad)), tag("seq", seq)]);
+    let wall = SystemTime::now().duration_since(SystemTime::UNIX_EPOCH).unwrap().as_nanos() as u64;
+    let tags = vec![tag("pad", "x".repeat(pad)), tag("seq", seq), tag("wall", wall)];
+    let dated = match seq % 13 {
+        3 => dated_event(SystemTime::now() - Duration::from_secs(25 * 365 * 86400), tags.clone()),
+        8 => dated_event(SystemTime::now() + Duration::from_secs(3 * 86400), tags.clone()),
+        _ => None,
+    };
+    let ev = dated.unwrap_or_else(|| LogEvent::new(Level::Info, tags));
     let mut b = Vec::new();
     ev.write_jsonl(&mut b).unwrap();
     (ev, b.len() as u64)
